@@ -195,16 +195,10 @@ class Parser:
             self.pos += 1
             left = PopAll(tag=tag)
         elif left_kind == TokenKind.CHAR:
-            start = unescape_string(
-                self.eat(TokenKind.CHAR).value[1:-1], token, quote="'"
-            )
+            start = self.parse_char(self.eat(TokenKind.CHAR))
             self.eat(TokenKind.RANGE_OP)
-            stop_token = self.eat(TokenKind.CHAR)
-            left = Range(
-                start,
-                unescape_string(stop_token.value[1:-1], token, quote="'"),
-                tag=tag,
-            )
+            stop = self.parse_char(self.eat(TokenKind.CHAR))
+            left = Range(start, stop, tag=tag)
         elif left_kind == TokenKind.POSITIVE_PREDICATE:
             self.pos += 1
             left = PositivePredicate(self.parse_expression(PRECEDENCE_PREFIX), tag=tag)
@@ -229,6 +223,13 @@ class Parser:
             left = self.parse_infix_expression(left)
 
         return left
+
+    def parse_char(self, token: Token) -> str:
+        char = token.value[1:-1]
+        if len(char) == 1:
+            # Any single character, including a lone backslash.
+            return char
+        return unescape_string(char, token, quote="'")
 
     def parse_infix_expression(self, left: Expression) -> Expression:
         token = self.next()
